@@ -51,6 +51,35 @@ CLAIMS = {
        "field of source row idx[j] (refinement via C16), with the new temperature and the requested size. The captured p vector and indices of the real resample are compared.",
   note=TB + "numpy Generator.choice is trusted to draw index i with the probability it is handed; fancy indexing is modelled as gather.",
   technique="Lean 4 proof + differential correspondence on captured probability vectors + row-copy oracle"),
+ "C08": dict(
+  text="Theorems about the loop state machine (Model/Smc.lean) for every schedule rule, kernel, random stream, cadence and cap: the returned evidence is the sum of the recorded "
+       "ratios and the uncertainty the root of the summed variances; each recorded ratio is the ratio of the population as it stood BEFORE that iteration's resampling with the "
+       "temperatures actually used; the recorded series do not depend on the resampling indices, on the checkpoint cadence, on the final enlargement, or on interrupt+resume. "
+       "Per-iteration numbers are the model of Model/Tempering.lean (log mean incremental weight; C09/C02 theorems). Real runs are recomputed and paired runs compared.",
+  note=TB + "MCMC kernels are test doubles; in the model the kernel output is an input, so independence of the resampling noise is by construction plus the per-step theorem.",
+  technique="Lean 4 proof (induction over the loop) + differential correspondence (ratio op, loop replay) + recomputation oracle + paired runs"),
+ "C11": dict(
+  text="Theorems (for every Kit, configuration, step list): restore(snapshot st) = st up to the checkpoint log; an interrupted run resumed from ANY surviving checkpoint (also under another "
+       "cadence, also the forced final one, also at the step cap, also with the interruption inside the enlargement) returns the same evidence, population, history, iteration and temperature "
+       "as the uninterrupted run (resume_eq, resume_from_any_checkpoint); the three pinned defects (duplicate population, min_step reset, extra iteration at the cap) are proved of the pinned model. "
+       "Real runs are interrupted at EVERY likelihood call and resumed through bytes / live dict / .pkl / .h5 (C12 adds resume_from_file) and compared bit for bit.",
+  note=TB + "Assumes deterministic user functions and that the numpy Generator state round-trips through pickle (the model feeds the unconsumed suffix of the step list). EmceeSMC's kernel takes its "
+       "randomness from numpy's global state, which is not a source handed to aspire: excluded. Kernel doubles.",
+  technique="Lean 4 proof (simulation relation up to the checkpoint log) + fault injection at every likelihood call + bitwise comparison"),
+ "C12": dict(
+  text="Theorems: dump_pickle_to_hdf's model leaves exactly the new payload for every old content (growing, shrinking, equal, missing) while the no-shrink variant leaves a stale suffix; checkpoints "
+       "are written exactly at the multiples of the cadence plus one forced at the end; the checkpoint log is prefix-monotone, so after an interruption following j steps the file holds the snapshot of "
+       "iteration e*(j/e); the file keeps configuration and proposal and the payload decodes (file_contents, file_resume). Real sample_posterior/auto_checkpoint runs are faulted at every likelihood "
+       "call, the file inspected byte for byte and resumed with Aspire.resume_from_file.",
+  note=TB + "h5py/pickle store bytes faithfully; interruptions are Python exceptions at user-function calls (process death in the middle of an HDF5 write is not modelled); the stub proposal's own save/load.",
+  technique="Lean 4 proof (byte-level dataset model + loop cadence) + fault injection at every call + byte comparison + resume-from-file"),
+ "C18": dict(
+  text="Theorems: the history invariant (all six series have one entry per iteration, stored populations = initial followed by the kernel output of every iteration in order, every recorded temperature / "
+       "ESS / ratio / variance / target equals its definition on the neighbouring stored population) holds in the initial state, is preserved by every iteration, holds for every reachable state, "
+       "for every checkpoint, and for runs resumed from any checkpoint; the pinned restore breaks it (pops.length = iter + 2). Real runs (fresh and fault+resume through 4 routes) are checked "
+       "against the definitions and replayed through the loop model.",
+  note=TB + "kernel doubles; with store_sample_history=False only the length invariant is stated; mcmc_acceptance's extra entry after the final enlargement is a known finding.",
+  technique="Lean 4 proof (invariant by induction over operations) + loop replay correspondence + recomputation oracle"),
 }
 NOT_YET = "check not built yet (work in progress; see DESIGN.md section 10)"
 
